@@ -94,6 +94,62 @@ theorem discrete_sum_excluding_tmax_lt_one (comps : List (Comp ℝ)) (hne : comp
 -- non-vacuity: the `Admissible` instance above with `Δ = 0.25`
 example : (0 : ℝ) < 0.25 := by norm_num
 
+section pooled
+open MeasureTheory Set
+
+/-- per-observation limits included: for data pooled from several observation windows `DwelltimeModel.pdf`
+    reports `Σ_classes count/total · 1[tmin ≤ x < tmax] · pdfCont(tmin, tmax) x` — every truncated sub-density
+    masked to ITS OWN window (`pooledPdf`, the function the driver evaluates as `c15.pdfpool`/`c15.quadpool`).
+    For every admissible parameter set, any counts with non-zero total and any finite windows inside `[lo, hi]`
+    this density integrates to one over `[lo, hi]`.  (With the mask taken over the union of the windows instead,
+    each sub-density would contribute more than its share.) -/
+theorem pooled_density_integrates_to_one (comps : List (Comp ℝ)) (hne : comps ≠ []) (hadm : Admissible comps)
+    (classes : List (LimitClass ℝ)) (lo hi : ℝ) (hcls : ∀ c ∈ classes, WindowIn lo hi c)
+    (htot : sumL (classes.map (·.count)) ≠ 0) :
+    ∫ x in lo..hi, pooledPdf comps classes x (fun _ => x) = 1 := by
+  have hfun : (fun x => pooledPdf comps classes x (fun _ => x)) = fun x =>
+      (classes.map fun c => c.count / sumL (classes.map (·.count))
+          * (Ico c.tmin (c.tmax.getD 0)).indicator (fun t => pdfCont comps c.tmin c.tmax t) x).sum :=
+    funext fun x => pooledPdf_eq comps hne classes lo hi hcls x
+  rw [hfun]
+  set total := sumL (classes.map (·.count)) with htotal
+  have hspec : ∀ c ∈ classes, (fun t => pdfCont comps c.tmin c.tmax t) = fun t => specPdfCont comps c.tmin c.tmax t := by
+    intro c hc
+    obtain ⟨_, m, hmax, _, hlt, _⟩ := hcls c hc
+    exact funext fun t => pdfCont_eq_spec comps hne hadm c.tmin t c.tmax fun m' hm' => by
+      rw [hmax] at hm'; cases hm'; exact hlt
+  rw [integral_list_sum]
+  · have hone : ∀ c ∈ classes, (∫ x in lo..hi, c.count / total
+          * (Ico c.tmin (c.tmax.getD 0)).indicator (fun t => pdfCont comps c.tmin c.tmax t) x) = c.count / total := by
+      intro c hc
+      obtain ⟨_, m, hmax, h1, hlt, h3⟩ := hcls c hc
+      rw [intervalIntegral.integral_const_mul, hmax]
+      show c.count / total * (∫ x in lo..hi, (Ico c.tmin m).indicator (fun t => pdfCont comps c.tmin (some m) t) x) = _
+      rw [integral_indicator_Ico _ lo hi c.tmin m h1 hlt.le h3,
+        continuous_integrates_to_one comps hne hadm c.tmin m hlt, mul_one]
+    rw [List.map_congr_left hone]
+    have : (fun c : LimitClass ℝ => c.count / total) = fun c => c.count * total⁻¹ := by
+      funext c; rw [div_eq_mul_inv]
+    rw [this, sum_map_mul_const, ← sumL_eq_sum]
+    exact mul_inv_cancel₀ htot
+  · intro c hc
+    rw [hspec c hc]
+    have hi' := (continuous_specPdfCont comps c.tmin c.tmax).intervalIntegrable (μ := volume) lo hi
+    exact (IntervalIntegrable.const_mul ⟨hi'.1.indicator measurableSet_Ico, hi'.2.indicator measurableSet_Ico⟩ _)
+
+-- non-vacuity: two windows inside `[0.5, 20]` with 3 and 5 dwell times
+example : (∀ c ∈ ([⟨3, 0.5, some 10, none⟩, ⟨5, 1, some 20, none⟩] : List (LimitClass ℝ)), WindowIn 0.5 20 c)
+    ∧ sumL (([⟨3, 0.5, some 10, none⟩, ⟨5, 1, some 20, none⟩] : List (LimitClass ℝ)).map (·.count)) ≠ 0 := by
+  refine ⟨?_, ?_⟩
+  · intro c hc
+    simp only [List.mem_cons, List.not_mem_nil, or_false] at hc
+    rcases hc with rfl | rfl
+    · exact ⟨rfl, 10, rfl, by norm_num, by norm_num, by norm_num⟩
+    · exact ⟨rfl, 20, rfl, by norm_num, by norm_num, by norm_num⟩
+  · simp only [List.map_cons, List.map_nil, sumL]; norm_num
+
+end pooled
+
 /-! ## Relabelling -/
 
 /-- core `relabel_invariant`: the negative log-likelihood handed to the optimiser (and hence the reported
